@@ -66,8 +66,18 @@ class TLCResult(object):
 
     def printed(self, prefix="@@"):
         """JSON records printed with PrintT(<<"@@", ToJson(x)>>) or PrintT("@@" \\o ToJson(x))."""
-        recs = []
-        for line in self.out.splitlines():
+        return list(self.iter_printed(prefix))
+
+    def iter_printed(self, prefix="@@"):
+        """the same, one record at a time (large simulation outputs are not materialised)"""
+        pos = 0
+        out = self.out
+        while pos < len(out):
+            nl = out.find("\n", pos)
+            if nl < 0:
+                nl = len(out)
+            line = out[pos:nl]
+            pos = nl + 1
             i = line.find(prefix)
             if i < 0:
                 continue
@@ -77,13 +87,12 @@ class TLCResult(object):
             if s.startswith('"') and s.endswith('"'):
                 s = s[1:-1]
             try:
-                recs.append(json.loads(s))
+                yield json.loads(s)
             except ValueError:
                 try:
-                    recs.append(json.loads(s.replace('\\"', '"')))
+                    yield json.loads(s.replace('\\"', '"'))
                 except ValueError:
                     raise TLCError("unparsable TLC record line: %r" % line[:300])
-        return recs
 
     def coverage(self):
         """action name -> (distinct, total) from -coverage output."""
